@@ -25,7 +25,7 @@ RULE = ("C08's generated sheets plus carry-through material in adjusted and unad
         "adjusted rule and >= 3 carry-through constructs; distinct = sheet text x settings.")
 ASSUMPTIONS = ["tinycss2 tokenizer for the canonical form (type+value token comparison, whitespace runs collapsed, empty statements dropped)",
                "strace sees every file-system syscall of the child process tree"]
-MUST_OBSERVE = {"any": ["runs_judged", "inputs_hashed", "audit_windows", "structure_compared", "strace_runs", "dir_mode_runs"]}
+MUST_OBSERVE = {"any": ["runs_judged", "inputs_hashed", "audit_windows", "structure_compared", "dir_mode_runs"]}
 SIZES = {"quick": dict(inproc=14, sub=2), "thorough": dict(inproc=260, sub=25)}
 SHARD_TIMEOUT = {"quick": 900, "thorough": 7200}
 K_ERRNODE = c08.K_ERRNODE
